@@ -77,12 +77,14 @@ def gen_case(rng, flavour):
 
 def merge_polls(line):
     """Consecutive epoll_pwait calls of one poll phase (metrics mode polls with 0 first)
-    are one blocking decision: merge them (sum; -1 absorbs)."""
+    are one blocking decision: merge them (sum; -1 absorbs; flags of the first)."""
     out = []
     for tok in line.split():
         if tok[0] == "w" and out and out[-1][0] == "w":
-            a, b = int(out[-1][1:]), int(tok[1:])
-            out[-1] = "w%d" % (-1 if (a < 0 or b < 0) else a + b)
+            a, fl = out[-1][1:].split(":")
+            b = tok[1:].split(":")[0]
+            a, b = int(a), int(b)
+            out[-1] = "w%d:%s" % ((-1 if (a < 0 or b < 0) else a + b), fl)
         else:
             out.append(tok)
     return " ".join(out)
